@@ -221,6 +221,27 @@ FromLiteral(bs) ==
       ev == sgn * IntOfNat(StripLead(ed))
   IN Canon(FALSE, ip \o fp, ev - Len(fp))
 
+\* ---------------------------------------------------------------- binary floating point (C04)
+\* A float64 is given exactly as <<neg, M, E>>: value (-1)^neg * M * 2^E, M a natural (digit sequence) below 2^53.
+RECURSIVE Pow2(_)
+Pow2(n) == IF n = 0 THEN <<1>> ELSE NatMulDigit(Pow2(n - 1), 2)
+PowTen(n) == <<1>> \o Zeros(n)
+\* |d - f| in units of 1/2 ulp of f:  F64Within(d, f, h) <=> |d - f| <= h/2 ulp ; at h = 1 a tie needs an even M
+F64Within(d, f, h) ==
+  IF DIsZero(d) THEN f[2] = <<>>
+  ELSE /\ (f[2] # <<>> => f[1] = d[1])
+       /\ LET k == d[3]  E == f[3]
+              a2 == MaxI(-k, 0)  b2 == MaxI(-E, 0)
+              X == NatMul(NatShift(d[2], MaxI(k, 0)), Pow2(b2))
+              Y == NatMul(NatMul(f[2], Pow2(MaxI(E, 0))), PowTen(a2))
+              U == NatMul(Pow2(MaxI(E, 0)), PowTen(a2))
+              diff2 == NatMulDigit(IF NatCmp(X, Y) >= 0 THEN NatSub(X, Y) ELSE NatSub(Y, X), 2)
+              c == NatCmp(diff2, NatMul(U, NatOfInt(h)))
+          IN c < 0 \/ (c = 0 /\ (h > 1 \/ ~NatIsOdd(f[2])))
+\* the stated domain of "nearest": an integer of at most 15 digits scaled by 10^k, |k| <= 22
+InNearestDomain(d) == DIsZero(d) \/ (Len(d[2]) <= 15 /\ d[3] >= -22 /\ d[3] <= 22 + 15 - Len(d[2]))
+IsFloat64Of(d, f) == IF InNearestDomain(d) THEN F64Within(d, f, 1) ELSE F64Within(d, f, 8)
+
 \* decimal digits of a canonical decimal as a grammar-token value
 NumV(a) == a
 =============================================================================
